@@ -416,14 +416,84 @@ def sym_cond(cond, param, env):
 ENUM_CAP = 5000
 
 
-def sym_int_table(func_node, param):
+class Const(object):
+    """a local bound to a statically known value on the current path"""
+
+    def __init__(self, value):
+        self.value = value
+
+
+def _index_cases(e, param, env, region):
+    """index expression -> [(sub-region, Term | int)]   (term, min(term, c), max(term, c), constant)"""
+    if isinstance(e, ast.Call) and isinstance(e.func, ast.Name) and e.func.id in ("min", "max") and len(e.args) == 2 and not e.keywords:
+        a, b = _term(e.args[0], param, env), _term(e.args[1], param, env)
+        if isinstance(a, int) and isinstance(b, Term):
+            a, b = b, a
+        if isinstance(a, Term) and isinstance(b, int):
+            low = a.le(b).intersect(region)          # term <= c
+            high = region.minus(a.le(b))             # term > c
+            if e.func.id == "min":
+                return [(low, a), (high, b)]
+            return [(low, b), (high, a)]
+        raise AnalysisError("dectable: unsupported %s() arguments %s" % (e.func.id, norm(e)))
+    t = _term(e, param, env)
+    return [(region, t)]
+
+
+def sym_int_table(func_node, param, resolve=None):
     """[(IntSet region, outcome, lineno, region)] by symbolic execution of the body over regions of the parameter.
-    Handles if/elif/else, return CONST | return <term> | return str(<term>), raise, and `v = <affine/floor-div term>`."""
+    Handles if/elif/else, return CONST | return <term> | return str(<term>) | return <local constant>, raise,
+    `v = <affine/floor-div term>`, and lookups in a constant sequence `a[, b] = TABLE[<index expression>]` with Python's
+    index semantics (negative indexes wrap, out of range raises IndexError): the region is split per index value."""
     rows = []
 
-    def ret_rows(e, region, ln):
+    def const_or_term(e, env):
+        if isinstance(e, ast.Name) and isinstance(env.get(e.id), Const):
+            return env[e.id]
+        okc, c = _const(e)
+        if okc or isinstance(e, ast.Constant):
+            return Const(e.value if isinstance(e, ast.Constant) else c)
+        return _term(e, param, {k: v for k, v in env.items() if isinstance(v, Term)})
+
+    def cond(test, env):
+        """IntSet of x satisfying test; comparisons between path constants are decided outright"""
+        if isinstance(test, ast.BoolOp):
+            sets = [cond(v, env) for v in test.values]
+            r = sets[0]
+            for s_ in sets[1:]:
+                r = r.intersect(s_) if isinstance(test.op, ast.And) else r.union(s_)
+            return r
+        if isinstance(test, ast.UnaryOp) and isinstance(test.op, ast.Not):
+            return cond(test.operand, env).complement()
+        if isinstance(test, ast.Compare) and len(test.ops) == 1:
+            l, r = test.left, test.comparators[0]
+            lc = env.get(l.id) if isinstance(l, ast.Name) else None
+            rc = env.get(r.id) if isinstance(r, ast.Name) else None
+            if isinstance(lc, Const) or isinstance(rc, Const):
+                lv = lc.value if isinstance(lc, Const) else (l.value if isinstance(l, ast.Constant) else _const(l)[1])
+                rv = rc.value if isinstance(rc, Const) else (r.value if isinstance(r, ast.Constant) else _const(r)[1])
+                if not (isinstance(lc, Const) or isinstance(l, ast.Constant) or _const(l)[0]) or not (
+                        isinstance(rc, Const) or isinstance(r, ast.Constant) or _const(r)[0]):
+                    raise AnalysisError("dectable: comparison of a path constant with a non-constant: %s" % norm(test))
+                op = test.ops[0]
+                res = {ast.Is: lv is rv or lv == rv and lv is None, ast.IsNot: not (lv is rv or (lv is None and rv is None)),
+                       ast.Eq: lv == rv, ast.NotEq: lv != rv}.get(type(op))
+                if res is None:
+                    try:
+                        res = {ast.Lt: lv < rv, ast.LtE: lv <= rv, ast.Gt: lv > rv, ast.GtE: lv >= rv}[type(op)]
+                    except Exception:
+                        raise AnalysisError("dectable: unsupported comparison of path constants %s" % norm(test))
+                return IntSet.all() if res else IntSet.empty()
+        if isinstance(test, ast.Name) and isinstance(env.get(test.id), Const):
+            return IntSet.all() if env[test.id].value else IntSet.empty()
+        return sym_cond(test, param, {k: v for k, v in env.items() if isinstance(v, Term)})
+
+    def ret_rows(e, region, ln, env):
         if e is None:
             rows.append((region, ("return", None), ln, region))
+            return
+        if isinstance(e, ast.Name) and isinstance(env.get(e.id), Const):
+            rows.append((region, ("return", env[e.id].value), ln, region))
             return
         if isinstance(e, ast.Constant):
             rows.append((region, ("return", e.value), ln, region))
@@ -436,7 +506,7 @@ def sym_int_table(func_node, param):
         inner = e
         if isinstance(e, ast.Call) and isinstance(e.func, ast.Name) and e.func.id == "str" and len(e.args) == 1:
             as_str, inner = True, e.args[0]
-        t = _term(inner, param, ret_rows.env)
+        t = _term(inner, param, {k: v for k, v in env.items() if isinstance(v, Term)})
         if not isinstance(t, Term):
             raise AnalysisError("dectable: non-constant result %s" % norm(e))
         for lo, hi in region.ivs:
@@ -452,33 +522,80 @@ def sym_int_table(func_node, param):
                 if not pre.is_empty():
                     rows.append((pre, ("return", str(k) if as_str else k), ln, pre))
 
+    def lookup_cases(value, region, env, ln):
+        """value = TABLE[<index>] -> [(sub-region, element)]; out-of-range parts become IndexError rows"""
+        if not (isinstance(value, ast.Subscript) and isinstance(value.value, ast.Name) and resolve is not None):
+            return None
+        table = resolve(value.value.id)
+        if not isinstance(table, (list, tuple)):
+            return None
+        n = len(table)
+        out = []
+        for sub, idx in _index_cases(value.slice, param, {k: v for k, v in env.items() if isinstance(v, Term)}, region):
+            if sub.is_empty():
+                continue
+            if isinstance(idx, int):
+                if -n <= idx < n:
+                    out.append((sub, table[idx]))
+                else:
+                    rows.append((sub, ("raise", "IndexError"), ln, sub))
+                continue
+            too_low = sub.intersect(idx.le(-n - 1))
+            too_high = sub.intersect(idx.ge(n))
+            for r_ in (too_low, too_high):
+                if not r_.is_empty():
+                    rows.append((r_, ("raise", "IndexError"), ln, r_))
+            for k in range(-n, n):
+                pre = sub.intersect(idx.cmp(ast.Eq(), k))
+                if not pre.is_empty():
+                    out.append((pre, table[k]))
+        return out
+
     def run(stmts, region, env):
         """returns the region that falls out of stmts"""
-        for s in stmts:
+        for i, s in enumerate(stmts):
             if region.is_empty():
                 return region
             if isinstance(s, ast.Expr) and isinstance(s.value, ast.Constant):
                 continue
             if isinstance(s, ast.Pass):
                 continue
-            if isinstance(s, ast.Assign) and len(s.targets) == 1 and isinstance(s.targets[0], ast.Name):
-                if s.targets[0].id == param:
-                    raise AnalysisError("dectable: the parameter is reassigned at line %d" % s.lineno)
-                t = _term(s.value, param, env)
-                env = dict(env)
-                env[s.targets[0].id] = t if isinstance(t, Term) else None
-                if not isinstance(t, Term):
-                    raise AnalysisError("dectable: constant local at line %d" % s.lineno)
-                continue
+            if isinstance(s, ast.Assign) and len(s.targets) == 1:
+                tgt = s.targets[0]
+                cases = lookup_cases(s.value, region, env, s.lineno)
+                if cases is not None:
+                    # continue the rest of the block separately for every looked-up element
+                    out = IntSet.empty()
+                    for sub, elem in cases:
+                        env2 = dict(env)
+                        if isinstance(tgt, ast.Name):
+                            env2[tgt.id] = Const(elem)
+                        elif isinstance(tgt, (ast.Tuple, ast.List)) and isinstance(elem, (tuple, list)) and len(elem) == len(tgt.elts) \
+                                and all(isinstance(t_, ast.Name) for t_ in tgt.elts):
+                            for t_, v_ in zip(tgt.elts, elem):
+                                env2[t_.id] = Const(v_)
+                        else:
+                            raise AnalysisError("dectable: unsupported unpacking at line %d" % s.lineno)
+                        out = out.union(run(stmts[i + 1:], sub, env2))
+                    return out
+                if isinstance(tgt, ast.Name):
+                    if tgt.id == param:
+                        raise AnalysisError("dectable: the parameter is reassigned at line %d" % s.lineno)
+                    v = const_or_term(s.value, env)
+                    env = dict(env)
+                    if isinstance(v, int):
+                        v = Const(v)
+                    env[tgt.id] = v
+                    continue
+                raise AnalysisError("dectable: unsupported assignment at line %d" % s.lineno)
             if isinstance(s, ast.If):
-                c = sym_cond(s.test, param, env)
+                c = cond(s.test, env)
                 out_t = run(s.body, region.intersect(c), env)
                 out_f = run(s.orelse, region.minus(c), env) if s.orelse else region.minus(c)
                 region = out_t.union(out_f)
                 continue
             if isinstance(s, ast.Return):
-                ret_rows.env = env
-                ret_rows(s.value, region, s.lineno)
+                ret_rows(s.value, region, s.lineno, env)
                 return IntSet.empty()
             if isinstance(s, ast.Raise):
                 e = s.exc
@@ -554,4 +671,80 @@ def label_lookup_table(func_node, param, resolve):
         if not isinstance(k, str):
             raise AnalysisError("dectable: non-string label %r in lookup table" % (k,))
         out[k] = ("return", v)
+    return out, default
+
+
+def label_loop_table(func_node, param, resolve):
+    """label -> value functions written as a search loop over a constant table:
+        for a, b in TABLE:  if p == a [and <tests on b>]: return b      ...  raise E(...)
+    The loop is unrolled over the statically evaluated table (first match wins)."""
+    body = [s_ for s_ in func_node.body if not (isinstance(s_, ast.Expr) and isinstance(s_.value, ast.Constant))]
+    if not (len(body) == 2 and isinstance(body[0], ast.For) and not body[0].orelse and isinstance(body[0].iter, ast.Name)
+            and isinstance(body[1], (ast.Raise, ast.Return))):
+        raise AnalysisError("dectable: label function is not a search loop over a table")
+    table = resolve(body[0].iter.id)
+    if isinstance(table, dict):
+        table = list(table.items())
+    if not isinstance(table, (list, tuple)):
+        raise AnalysisError("dectable: the searched table is not statically known")
+    lp = body[0]
+    if not (len(lp.body) == 1 and isinstance(lp.body[0], ast.If) and not lp.body[0].orelse and len(lp.body[0].body) == 1
+            and isinstance(lp.body[0].body[0], ast.Return)):
+        raise AnalysisError("dectable: unsupported search loop body")
+    test, ret = lp.body[0].test, lp.body[0].body[0].value
+    out = {}
+
+    def val(e, env):
+        if isinstance(e, ast.Name) and e.id in env:
+            return True, env[e.id]
+        if isinstance(e, ast.Constant):
+            return True, e.value
+        okc, c = _const(e)
+        return okc, c
+    for elem in table:
+        env = {}
+        if isinstance(lp.target, ast.Name):
+            env[lp.target.id] = elem
+        elif isinstance(lp.target, (ast.Tuple, ast.List)) and isinstance(elem, (tuple, list)) and len(elem) == len(lp.target.elts):
+            for t_, v_ in zip(lp.target.elts, elem):
+                env[t_.id] = v_
+        else:
+            raise AnalysisError("dectable: unsupported loop target")
+        label = None
+        holds = True
+        for cj in (test.values if isinstance(test, ast.BoolOp) and isinstance(test.op, ast.And) else [test]):
+            if not (isinstance(cj, ast.Compare) and len(cj.ops) == 1):
+                raise AnalysisError("dectable: unsupported search condition %s" % norm(cj))
+            l, r, op = cj.left, cj.comparators[0], cj.ops[0]
+            if isinstance(l, ast.Name) and l.id == param or isinstance(r, ast.Name) and r.id == param:
+                other = r if (isinstance(l, ast.Name) and l.id == param) else l
+                okv, v = val(other, env)
+                if not okv or not isinstance(op, ast.Eq) or not isinstance(v, str):
+                    raise AnalysisError("dectable: unsupported label comparison %s" % norm(cj))
+                label = v
+                continue
+            ok1, lv = val(l, env)
+            ok2, rv = val(r, env)
+            if not (ok1 and ok2):
+                raise AnalysisError("dectable: unsupported search condition %s" % norm(cj))
+            res = {ast.Is: lv is rv or (lv is None and rv is None), ast.IsNot: not (lv is rv or (lv is None and rv is None)),
+                   ast.Eq: lv == rv, ast.NotEq: lv != rv}.get(type(op))
+            if res is None:
+                raise AnalysisError("dectable: unsupported search condition %s" % norm(cj))
+            holds = holds and res
+        if label is None:
+            raise AnalysisError("dectable: the search condition does not compare the label")
+        if holds and label not in out:
+            okr, rvv = val(ret, env)
+            if not okr:
+                raise AnalysisError("dectable: non-constant result %s" % norm(ret))
+            out[label] = ("return", rvv)
+    last = body[1]
+    if isinstance(last, ast.Raise):
+        e = last.exc
+        if isinstance(e, ast.Call):
+            e = e.func
+        default = ("raise", e.id if isinstance(e, ast.Name) else (e.attr if isinstance(e, ast.Attribute) else None))
+    else:
+        default = ("return", last.value.value if isinstance(last.value, ast.Constant) else None)
     return out, default
